@@ -85,6 +85,19 @@ def run_case(run, drv, case_seed):
             write_tree(os.path.join(search, f"c{cands}"), [(fname, data)])
             cands += 1
         os.makedirs(search, exist_ok=True)
+        for comps, data in files:
+            rel = name if single else os.path.join(name, *comps)
+            for base_dir in (dest, os.path.dirname(dest)):
+                target = os.path.normpath(os.path.join(base_dir, rel))
+                inside_box = target.startswith(box + os.sep)
+                if inside_box and not (target + os.sep).startswith(dest + os.sep) and \
+                        not os.path.lexists(target) and rng.random() < 0.6:
+                    try:
+                        os.makedirs(os.path.dirname(target), exist_ok=True)
+                        with open(target, "wb") as fd:
+                            fd.write(b"x")           # smaller than any candidate
+                    except OSError:
+                        pass
         case = {"case_seed": case_seed, "version": version, "single": single, "name": name,
                 "paths": [list(c) for c, _ in files]}
         raised = None
